@@ -240,3 +240,45 @@ Definition wire_101 (x : sx) : sx :=
       L [of_nats c; of_Zs e]
   | _ => sx_err
   end.
+
+(* ---------- the generator with its look-ups cached (proof device; same algorithm, no index arithmetic) ----------
+   State: current dump / value of previous_winning_event, whether it is the latest event seen, value of the latest
+   event (its dump is previous_dump), previous_dump, and the yielded (value, final dump) pairs. *)
+Record ast := mk_ast { ad : Z; av : Z; alast : bool; lv : Z; apd : Z; aout : list (Z * Z) }.
+
+Definition abound (isg : Z -> bool) (a : ast) (cd : Z) : ast :=
+  let '(wd, wv, same) := if isg (av a) then (ad a, av a, alast a) else (apd a, lv a, true) in
+  let out1 := if (apd a <=? wd) && (wd <? cd) then aout a ++ [(wv, wd)] else aout a in
+  if same then mk_ast wd wv true (lv a) cd out1
+  else let e' := apd a + 1 in
+       let out2 := if e' <? cd then out1 ++ [(lv a, e')] else out1 in
+       mk_ast e' (lv a) true (lv a) cd out2.
+
+Definition astep (isg : Z -> bool) (a : ast) (cd v : Z) (real : bool) : ast :=
+  let a1 := if apd a <? cd then abound isg a cd else a in
+  if real && isg v then mk_ast cd v true v (apd a1) (aout a1)
+  else mk_ast (ad a1) (av a1) false v (apd a1) (aout a1).
+
+Definition arun (isg : Z -> bool) (a : ast) (l : list (Z * Z)) : ast :=
+  fold_left (fun a e => astep isg a (fst e) (snd e) true) l a.
+
+(* events (dump, value) after the first one (which is at dump 0 with value v0), then the terminator N *)
+Definition afinal (isg : Z -> bool) (v0 : Z) (l : list (Z * Z)) (N : Z) : list (Z * Z) :=
+  aout (astep isg (arun isg (mk_ast 0 v0 true v0 0 []) l) N 0 false).
+
+(* (dumps-with-terminator values greedy-values) -> ((value dump) pairs of the index-based generator,
+                                                     (value dump) pairs of the cached-look-up generator) *)
+Definition wire_102 (x : sx) : sx :=
+  match x with
+  | L [ev; vals; g] =>
+      let ev := to_Zs ev in let vals := to_Zs vals in let g := to_Zs g in
+      let isg := fun v => memZ v g in
+      let '(c, e) := single_event_per_dump ev (map isg vals) in
+      let p1 := map (fun i => L [I (nth i vals 0); I (nth i e 0)]) c in
+      let p2 := match combine (removelast ev) vals with
+                | (_, v0) :: t => map (fun p => L [I (fst p); I (snd p)]) (afinal isg v0 t (last ev 0))
+                | [] => []
+                end in
+      L [L p1; L p2]
+  | _ => sx_err
+  end.
